@@ -100,6 +100,12 @@ def run(e: Engine, rep: Report):
     n18(e, rep)
     n19(e, rep)
     n20(e, rep)
+    from . import c19 as _c19
+    common.reuse(e, rep, _c19.l7, 'N21',
+                 '= C19-L7: a connection is re-used only after the '
+                 'clean-up RSET was answered (an unanswered RSET left '
+                 'behind shifts every reply of the next message by one: a '
+                 'refusal is reported as a delivery)', only={'L7'})
     rep.floor('N1', 9, 'relay implementations / set sites')
     rep.floor('N2', 12, 'client command sites')
 
